@@ -15,12 +15,12 @@ CONSTS = {"Bug": "none"}
 SUBST = {"RxSeq": "RxSeq8", "MetSeq": "MetSeq4", "GeneSeq": "GeneSeq4", "GrpSeq": "GrpSeq1"}
 
 # "full:N" = every sequence of N operations of the small context vocabulary (exhaustive), closed by exits
-PROFILE = {"C01": ["edit"], "C02": ["edit"], "C03": ["full", "fullbounds", "ctx"], "C07": ["ko"], "C12": ["copy"],
+PROFILE = {"C01": ["edit"], "C02": ["edit"], "C03": ["full", "fullbounds", "ctx"], "C07": ["ko"], "C12": ["fullcopy", "copy"],
            "C13": ["analyze"], "C10": ["fullio", "io"], "C11": ["fullio", "io"]}
 TIERS = {
-    "quick": {"full": (0, 2), "fullbounds": (0, 3), "fullio": (0, 3), "edit": (700, 14), "ctx": (300, 16), "ko": (700, 12), "copy": (600, 14), "analyze": (220, 9),
+    "quick": {"full": (0, 2), "fullbounds": (0, 3), "fullio": (0, 3), "fullcopy": (0, 2), "edit": (700, 14), "ctx": (300, 16), "ko": (700, 12), "copy": (600, 14), "analyze": (220, 9),
               "io": (300, 12), "palettes": 2},
-    "thorough": {"full": (0, 3), "fullbounds": (0, 4), "fullio": (0, 4), "edit": (8000, 18), "ctx": (5000, 20),
+    "thorough": {"full": (0, 3), "fullbounds": (0, 4), "fullio": (0, 4), "fullcopy": (0, 3), "edit": (8000, 18), "ctx": (5000, 20),
                  "ko": (5000, 14), "copy": (6000, 16), "analyze": (1200, 10), "io": (3000, 12), "palettes": 3},
 }
 KO_ACTIONS = {"GeneKnockOut", "KnockOutModelGenes", "RxnKnockOut"}
@@ -68,9 +68,9 @@ def attribute(v):
         props.add("C12")
     if a in ("Analyze", "Helper") and anything:
         props.add("C13")
-    if a == "RxnArith" and anything:
+    if a in ("RxnArith", "AddArith") and anything:
         props.add("C12")
-    if a not in ("Exit", "Enter", "RoundTrip", "Copy", "Analyze", "Helper", "RxnArith", "SaveDoc", "LoadDoc") and fields:
+    if a not in ("Exit", "Enter", "RoundTrip", "Copy", "Analyze", "Helper", "RxnArith", "AddArith", "SaveDoc", "LoadDoc") and fields:
         props.add("C02")
         if "in_context" in tags and any(f.endswith(":ctx") for f in fields):
             props.add("C03")
@@ -181,12 +181,12 @@ def run(prop, tier, replay=None):
     attributed_elsewhere = 0
     for profile in PROFILE[prop]:
         nwalks, depth = T[profile]
-        if profile in ("full", "fullbounds", "fullio"):
+        if profile in ("full", "fullbounds", "fullio", "fullcopy"):
             res = tlc_walks(wd, rep, "ctx", 1, depth, sd, mode="full",
-                            fullset={"full": "all", "fullbounds": "bounds", "fullio": "io"}[profile])
+                            fullset={"full": "all", "fullbounds": "bounds", "fullio": "io", "fullcopy": "copy"}[profile])
             for b in res["printed"]:        # close every context that is still open
                 opened = sum(1 for o in b["ops"] if o["a"] == "Enter") - sum(1 for o in b["ops"] if o["a"] == "Exit")
-                b["ops"] = b["ops"] + [{"a": "Exit", "s": 1}] * (max(1, opened) if profile != "fullio" else 0)
+                b["ops"] = b["ops"] + [{"a": "Exit", "s": 1}] * (max(1, opened) if profile in ("full", "fullbounds") else max(0, opened))
         else:
             res = tlc_walks(wd, rep, profile, nwalks, depth, sd)
         rep.add_design(res)
